@@ -12,6 +12,15 @@ CHECKS = {
 }
 NOT_APPLICABLE = []
 
+import glob, os
+for f in sorted(glob.glob("/verif/manifest.d/*.json")):
+    pid = os.path.basename(f)[:-5]
+    d = json.load(open(f))
+    if os.path.exists(f"/verif/harness/props/{pid.lower()}.py") and os.path.exists(f"/verif/coq/Props/{pid}.v"):
+        CHECKS[pid] = d
+ALL = [json.loads(l)["id"] for l in open("/verif/properties.jsonl")]
+NOT_APPLICABLE = [dict(property_id=p, reason="not yet claimed: the check for this property is still being built (see DESIGN.md section 5 for the plan)") for p in ALL if p not in CHECKS]
+
 m = dict(
     version=1,
     setup_cmd="cd /verif && ./setup.sh",
